@@ -168,6 +168,7 @@ def worker(job):
     from vf.decode import zkif
     be = job["backend"]
     rt = realrun.attach_real(be)
+    realrun.install_boundary(rt)
     R = common.Run(PROP, "translation_validation", RULE)
     import flatbuffers
     R.count("flatbuffers_standin" if getattr(flatbuffers, "__vf_standin__", False) else "flatbuffers_real")
@@ -198,7 +199,10 @@ def worker(job):
             R.count("program_raised")
             R.case(nontrivial=False)
             continue
-        snap = realrun.snapshot(rt)
+        snap = realrun.boundary_snapshot(rt)
+        if realrun.snapshot(rt) != snap:
+            R.violation("backend-trace-differs-from-boundary", "the backend's in-memory trace is not what the runtime handed to it (constraints %d vs %d)" % (
+                len(realrun.snapshot(rt)["constraints"]), len(snap["constraints"])), src=src[:400], inputs=inputs)
         vals = snap["pubvals"] + snap["privvals"]
         classes = set()
         if any(v < 0 for v in vals):
@@ -245,7 +249,7 @@ def worker(job):
             for rep in range(2):
                 if rep:
                     (PubVal(-5) * PrivVal(-7) - PrivVal(3)).val()
-                snap = realrun.snapshot(rt)
+                snap = realrun.boundary_snapshot(rt)
                 wd = tempfile.mkdtemp(prefix="c11f-", dir=home)
                 try:
                     prove_in(rt, wd, home)
@@ -263,7 +267,7 @@ def worker(job):
             if out.exc is not None:
                 R.count("pair_program_raised")
                 continue
-            snap = realrun.snapshot(rt)
+            snap = realrun.boundary_snapshot(rt)
             wd = tempfile.mkdtemp(prefix="c11p-", dir=home)
             try:
                 prove_in(rt, wd, home)
